@@ -791,6 +791,17 @@ def rule_session_only(ctx):
                 ctx.bad("SI.SESSION-ONLY", "%s#original" % fi.qual, fi, e.node,
                         "%s assigns item.mnemonic/original_mnemonic: disambiguation must only use "
                         "set_session_mnemonic_only, the name from the file must survive" % fi.qual)
+    # syntactic census as well: `<item>.mnemonic = ...` inside a SectionItems method goes through the rename hook of HeaderItem
+    for mname, fi in sorted(cls.methods.items()):
+        for sub in walk_shallow(fi.node):
+            if isinstance(sub, (ast.Assign, ast.AugAssign)):
+                for t in (sub.targets if isinstance(sub, ast.Assign) else [sub.target]):
+                    if isinstance(t, ast.Attribute) and t.attr in ("mnemonic", "original_mnemonic") and not (
+                            isinstance(t.value, ast.Name) and t.value.id == "self"):
+                        n += 1
+                        ctx.bad("SI.SESSION-ONLY", "%s#rename-store" % fi.qual, fi, sub, "`%s` in %s assigns an item's .mnemonic: that is the "
+                                "user-rename path, it overwrites original_mnemonic (a blank becomes 'unknown', a session suffix becomes part "
+                                "of the name that is written)" % (unparse(sub)[:60], fi.qual))
     n += 1
     ctx.ok("SI.SESSION-ONLY", SI + "#no-original-store", cls.methods["append"], cls.node,
            "no SectionItems method stores to an item's .mnemonic/.original_mnemonic (census over %d methods)" % len(cls.methods))
@@ -946,6 +957,10 @@ def rule_pk_state(ctx):
                 break
             want = "original_mnemonic" if i == 0 else iparams[i]
             attrs = {x[1] for x in prov.atoms(a, nid) if x[0] == "attrname"}
+            conv = {x[1] for x in prov.atoms(a, nid) if x[0] == "callname"} & {"item", "tolist", "float", "int", "str", "round", "astype", "asarray", "array"}
+            if conv and iparams[i] != "data":
+                problems.append("constructor argument %d (%s) passes through %s: the copy holds a converted value (np.float32(36.4).item() "
+                                "is 36.400001525878906), so str(value) and write() differ from the original" % (i, iparams[i], sorted(conv)))
             if want not in attrs or (i == 0 and ("mnemonic" in attrs or "useful_mnemonic" in attrs)):
                 problems.append("constructor argument %d (%s) is built from %s; it must be self.%s%s" % (
                     i, iparams[i], sorted(attrs) or unparse(a), want,
@@ -1300,3 +1315,36 @@ def rule_list_primitives(ctx):
             ctx.ok("SI.LIST-PRIMITIVES", site, fis[0] if fis else None, 0, "lasio/%s.py never applies list.* primitives to a section" % mod,
                    nontrivial=mod in ("reader", "las"))
     ctx.floor("SI.LIST-PRIMITIVES", 3)
+
+
+def rule_no_lookup_cache(ctx):
+    """SI.NO-LOOKUP-CACHE: the read accessors of a section decide from the items as they are now.  Today a section's only
+    instance state is `mnemonic_transforms`; any further attribute that a read accessor consults (a cached key set, an index)
+    goes stale when an item is renamed in place (`item.mnemonic = ...` does not pass through the section)."""
+    p = ctx.p
+    cls = p.cls(SI)
+    census = {"mnemonic_transforms"}
+    n = 0
+    for m in READ_ACCESSORS + ("get", "__delitem__", "set_item", "__setitem__", "__setattr__"):
+        fi = cls.methods.get(m)
+        if fi is None:
+            continue
+        reads = set()
+        for sub in walk_shallow(fi.node):
+            if isinstance(sub, ast.Attribute) and isinstance(sub.value, ast.Name) and sub.value.id == "self" and isinstance(sub.ctx, ast.Load) \
+                    and not any(sub.attr in c.methods for c in cls.mro()) and not hasattr(list, sub.attr):
+                reads.add(sub.attr)
+            if isinstance(sub, ast.Call) and isinstance(sub.func, ast.Attribute) and sub.func.attr in ("get", "pop", "setdefault") \
+                    and ast.unparse(sub.func.value) == "self.__dict__" and sub.args and isinstance(sub.args[0], ast.Constant):
+                reads.add(sub.args[0].value)
+        extra = {a for a in reads if a not in census and not a.startswith("__")}
+        n += 1
+        site = "%s#state" % fi.qual
+        if extra:
+            ctx.bad("SI.NO-LOOKUP-CACHE", site, fi, fi.node, "%s consults the section attribute %s, which is not part of a section's state "
+                    "today: cached lookup data is not invalidated by an in-place rename of an item, so `in`, item access and get() "
+                    "stop agreeing" % (m, sorted(extra)))
+        else:
+            ctx.ok("SI.NO-LOOKUP-CACHE", site, fi, fi.node, "%s reads no section state beyond mnemonic_transforms" % m,
+                   nontrivial=m in ("__contains__", "__getitem__"))
+    ctx.floor("SI.NO-LOOKUP-CACHE", 4)
